@@ -575,6 +575,8 @@ func columnTypeText(c *Column) string {
 		return fmt.Sprintf("%s(%d)", n, c.Length)
 	case c.Type == TVarchar || c.Type == TVarBinary:
 		return n + "(255)"
+	case c.Unsigned && c.Type.isInt():
+		return n + " unsigned"
 	}
 	return n
 }
